@@ -34,11 +34,11 @@ META = {
                   "C07_vars_free / C07_cfg_partA_faithful / C07_literal_deps_agree_* - the dependency sets the mechanism uses are those of part A. "
                   "These hold for the code since fix 8192ce0 (BinaryOp::RecordInsert keeps the thunk of a dynamically named field; configuration cfg_fixed, selected by reading operation.rs/closurize.rs) and (C07_history_fields_current) for the code before it on histories without dynamically named fields; C07_dynamic_field_indirection_refuted: the earlier code gave 11 instead of 6 for the dynamically named field of `{b | default = 10, \"%{n}\" = b + 1} & {b = 5}` (the defect this property found; the model reproduced the implementation's 11). "
                   "Teeth: C07_revert_keeps_cache_panics/_refuted/_overwrite_refuted (revert = clone), C07_inplace_revert_refuted, C07_deps_incomplete_refuted/_after_override_refuted. "
-                  "Ties: (A) harness c07fv parses source with the real parser, converts it with to_mainline, runs transform::free_vars::transform, prints the real term in the model's syntax (exhaustive matches, a new variant does not compile; the Rust enums are also read from source and compared with the covered constructors) and its RecordDeps; the extracted model is run on that term: corpus, every .ncl file of /repo (stdlib included), generated programs over 5 colliding names. "
+                  "Ties: (A) harness c07fv parses source with the real parser, converts it with to_mainline, runs transform::free_vars::transform, prints the real term in the model's syntax (exhaustive matches, a new variant does not compile; the Rust enums are also read from source and compared with the covered constructors) and its RecordDeps; the extracted model is run on that term: corpus, every .ncl file of /repo (stdlib included), generated programs over 5 colliding names, and the operand records of generated override cases (programs that can also be evaluated): model vs Rust, and the Rust tables of the record as written (local binders named like its fields) vs the same record with every let / fun / pattern binder renamed apart; for every field whose table differs the override history that exposes it is synthesised (override exactly the field whose dependency differs, read every field) and judged by the direct oracle, so a wrong table is reported with a concrete failing program. "
                   "(B) generated override histories on the extracted mechanism model (configured as closurize.rs is, read from source), on the extracted specification and on the real interpreter (every field of every step, by value or error class; normal and with hook H4). "
-                  "(O) on the implementation alone, structured records with static, nested, piecewise, dynamically named and included fields, dependencies through arithmetic, interpolation, if, arrays, functions, match, inline records, contracts depending on fields, 1-3 overriding operands in 7 merge shapes: merged = textually substituted record (whole export, and leaf by leaf when some field fails), = the same with all dependencies unknown, operands read after the merge = operands alone, merge after forcing the operands = merge.",
+                  "(O) on the implementation alone, structured records with static, nested, piecewise, dynamically named and included fields, dependencies through arithmetic, interpolation, if, arrays, functions, match, inline records, contracts depending on fields, local binders named like the fields in every binder form (let, let rec, multi-binding let, fun, curried fun, record / array / enum patterns in let, fun and match, matches with several guarded arms whose later arms mention the field an earlier arm rebinds), piecewise definitions of 1-2 pieces, dynamically named fields at both levels, 1-3 overriding operands in 7 merge shapes: merged = textually substituted record WITH EVERY BINDER RENAMED APART (no binder can capture a field there; a difference that the substituted record reproduces with its binders as written is reported as a scoping defect) (whole export, and leaf by leaf when some field fails), = the same with all dependencies unknown, operands read after the merge = operands alone, merge after forcing the operands = merge.",
     "level_note": "Trusted: Coq kernel; extraction (ExtrOcamlBasic only); harness bins c07fv and nkeval; the Python generators; the reading of lazy.rs / merge.rs / fixpoint.rs / closurize.rs / eval/mod.rs in coq/Rec/Mech.v (value level: Rc<RefCell> thunks as cells of a list heap; `cached = Some rid` stands for the closure built by init_cached; saturate's explicit function + application is represented by a body that keeps its own dependency filter; constants are standard thunks; the order of fields inside a record and memoisation of evaluated thunks are not modelled - the latter is exercised by the forcing-order variants of the correspondence). "
-                  "Partial: the Coq mechanism/specification cover records of integer expressions nested two levels deep (the inner instance is obtained by substituting the outcomes of the enclosing instance's fields, which its immutability justifies; thunk environments are not modelled as such); a record reached through an alias (`b = a` with `a` a record), records inside nested records, and the structural comparison of two records by a contract are reported by the model as outside the fragment and not compared; piecewise paths, includes, strings, arrays, functions and general contract expressions are covered by part A (dependency analysis, all syntax) and by the direct oracles on the implementation, not by the refinement proof. Hook H4 (all dependencies unknown) is dynamic scoping: it equals the normal run only on closed literals (C07_depsunknown_equiv); a nested literal that mentions a field of the enclosing record is not closed, and under H4 a field of that name merged into the nested record later captures the mention, so histories with nested literals are not run under H4 (the broad generator keeps the names of the two levels apart). Finding fixed during the build: dynamic-field-not-recomputed (8192ce0, patch kept in proposed/C07-record-insert-keep-revertible-thunk.diff).",
+                  "Partial: the Coq mechanism/specification cover records of integer expressions nested two levels deep (the inner instance is obtained by substituting the outcomes of the enclosing instance's fields, which its immutability justifies; thunk environments are not modelled as such); a record reached through an alias (`b = a` with `a` a record), records inside nested records, and the structural comparison of two records by a contract are reported by the model as outside the fragment and not compared; piecewise paths, includes, strings, arrays, functions and general contract expressions are covered by part A (dependency analysis, all syntax) and by the direct oracles on the implementation, not by the refinement proof. Hook H4 (all dependencies unknown) is dynamic scoping: it equals the normal run only on closed literals (C07_depsunknown_equiv); a nested literal that mentions a field of the enclosing record is not closed, and under H4 a field of that name merged into the nested record later captures the mention, so histories with nested literals are not run under H4 (the broad generator keeps the names of the two levels apart). Findings fixed during the build: dynamic-field-not-recomputed (8192ce0, patch kept in proposed/C07-record-insert-keep-revertible-thunk.diff); match-guard-scope (28e04ba, proposed/C07-match-guard-scope.diff: the variables of a guarded match arm stayed in scope in the following arms, so a field defined by such a match read the pattern variable where it named a sibling field and did not follow the overridden sibling - pattern compilation runs before the dependency analysis, so the tables were consistent with the wrongly scoped term and the defect is visible only against the binder-renamed reference).",
 }
 
 REPO = core.REPO
@@ -872,8 +872,11 @@ def run(ck):
                            "record); histories whose worst-case evaluation cost on the non-memoising extracted evaluators exceeds 5e6 steps "
                            "are discarded (~17%, cyclic ones with long bodies); every field of every step is compared (values in one program "
                            "with a generated forcing order, failing fields one program each; the whole program also with hook H4).  "
-                           "O: structured records with static / nested / piecewise / dynamic / included fields, typed names and one global "
-                           "reference order (1 reference in 60 against it), 1-3 overriding operands with rising priorities, 7 merge shapes.")
+                           "O: structured records with static / nested / piecewise (1-2 pieces) / dynamic (both levels) / included fields, typed names and one global "
+                           "reference order (1 reference in 60 against it), 1-3 overriding operands with rising priorities, 7 merge shapes; one expression node in ~4 "
+                           "is a binder form or a guarded match whose binders are named like visible fields (2 in 3, preferably a field the same definition already "
+                           "mentions); one case in 3 from the focused sub-stream (binder forms 1 in 2, piecewise 1 in 2, dynamic 1 in 2); the same operand records go "
+                           "through part A as written and renamed.")
     ck.coverage["partial"] = ("refinement proof for records of integer expressions nested two levels deep (with priorities, valueless and "
                               "dynamically named fields, comparison contracts depending on fields, known or unknown dependencies); record aliases, "
                               "deeper nesting, piecewise paths, included fields, strings, arrays, functions, general contracts: dependency analysis "
